@@ -230,6 +230,10 @@ def elements(case):
             out.append(('key%02d' % k, El(i, x, k, an)))
         elif elk == 'pair-str':
             out.append(('key%02d' % k, 'str%d' % i))
+        elif elk == 'pair-tuple':
+            # (key, value) pairs whose values are themselves tuples of two
+            # (what items() of a dictionary of coordinates gives)
+            out.append(('key%02d' % k, ('v%d' % i, i)))
         elif elk == 'str':
             out.append('s%02d_%d' % (k, i))
         elif elk == 'optint':
@@ -274,7 +278,7 @@ def expected(case):
                 key = lambda e: e[1].k        # noqa
         elif elk == 'map':
             key = lambda e: e['k']            # noqa
-        elif elk == 'pair-str':
+        elif elk in ('pair-str', 'pair-tuple'):
             key = lambda e: e[0]              # noqa
         else:
             key = lambda e: e                 # noqa
@@ -444,6 +448,7 @@ def strategy():
         syntax=st.sampled_from(['dtml', 'ssi', 'epfs']),
         seqkind=st.sampled_from(['list', 'tuple', 'gen', 'iter', 'lazy']),
         elkind=st.sampled_from(['obj', 'obj', 'map', 'pair-obj', 'pair-str',
+                                'pair-tuple',
                                 'str', 'int', 'mixed', 'mixed', 'optint']),
         xs=st.lists(st.integers(0, 2), min_size=0, max_size=12),
         ks=st.permutations(list(range(12))),
